@@ -72,9 +72,11 @@ Record session := mkSession {
 }.
 
 (* extension kinds of a ClientHelloSpec, in list order *)
-Inductive ext := XTicket | XPsk | XEms | XPskModes | XOther.
+(* XTicketWire: session_ticket given as raw bytes (GenericExtension 35): on the wire, so the server issues a ticket and
+   the client stores the session, but not a session extension the library can put a ticket into *)
+Inductive ext := XTicket | XPsk | XEms | XPskModes | XOther | XTicketWire.
 Definition ext_eqb (a b : ext) : bool :=
-  match a, b with XTicket, XTicket | XPsk, XPsk | XEms, XEms | XPskModes, XPskModes | XOther, XOther => true | _, _ => false end.
+  match a, b with XTicket, XTicket | XPsk, XPsk | XEms, XEms | XPskModes, XPskModes | XOther, XOther | XTicketWire, XTicketWire => true | _, _ => false end.
 Definition has (x : ext) (l : list ext) : bool := existsb (ext_eqb x) l.
 
 Record spec := mkSpec {
@@ -88,6 +90,7 @@ Record spec := mkSpec {
 
 (* HelloGolang always has ticketSupported, EMS, psk modes and can emit a PSK *)
 Definition has_ticket (sp : spec) : bool := sp_go sp || has XTicket (sp_exts sp).
+Definition wire_ticket (sp : spec) : bool := has_ticket sp || has XTicketWire (sp_exts sp).
 Definition has_psk (sp : spec) : bool := sp_go sp || has XPsk (sp_exts sp).
 Definition has_ems (sp : spec) : bool := sp_go sp || has XEms (sp_exts sp).
 Definition has_modes (sp : spec) : bool := sp_go sp || has XPskModes (sp_exts sp).
@@ -339,7 +342,7 @@ Definition step (ca : cache) (c : conn) : cache * obs :=
             if negb (mem (c_suite c) (sp_suites sp)) || negb (mem (c_suite c) (sv_suites sv)) then (fail ca' c off, ob false (SrvErr E_NO_SUITE)) else
             if negb (verify_ok c) then (fail ca' c off, ob false (CliErr E_CERT)) else
             (* a ticket is issued when the hello carries session_ticket *)
-            let ca2 := if has_ticket sp then put (c_name c) (stored c v (c_suite c) hello_ems None (c_now c)) ca' else ca' in
+            let ca2 := if wire_ticket sp then put (c_name c) (stored c v (c_suite c) hello_ems None (c_now c)) ca' else ca' in
             (ca2, ob false (Done false))
         end
     end
